@@ -1,5 +1,4 @@
 SPECIFICATION Spec
 INVARIANT Inv
-INVARIANT NotDone
 POSTCONDITION Post
 CHECK_DEADLOCK FALSE
